@@ -1000,13 +1000,13 @@ class mru_cache(object):
                         cache.clear() 
                         queue.clear()
                     else: # purge most recently used cache entry
-                        k = queue_pop()
+                        k = queue_pop() if queue else key
                         if cache.archived(): cache.dump(k)
                         try: del cache[k]
                         except KeyError: pass #FIXME: possible none purged
 
             # record recent use of this key
-            queue_append(key)
+            if key in cache: queue_append(key)
             return result
 
         def archive(obj):
